@@ -152,7 +152,9 @@ fn keep_going_cases(o: &mut Out, rng: &mut Rng, thorough: bool) {
     for k in 0..(if thorough { 300 } else { 40 }) {
         let mut cfg = random_cfg(rng, Some(true));
         cfg.sep = k % 4 == 0;
-        let nimg = match cfg.animated { Some((nf, _)) => nf as usize + cfg.sep as usize, None => 1 };
+        // every fifth history keeps streaming after the declared frames (sequence validation is off here: the surplus is taken, and nothing may panic)
+        let surplus = if k % 5 == 2 { 1 + (k / 5) % 2 } else { 0 };
+        let nimg = match cfg.animated { Some((nf, _)) => nf as usize + cfg.sep as usize, None => 1 } + surplus;
         let bits = crate::refimpl::samples(cfg.color) * cfg.depth as usize;
         let rowlen = (cfg.w as usize * bits + 7) / 8;
         let data = rng.bytes(rowlen * cfg.h as usize * nimg);
@@ -209,7 +211,7 @@ fn keep_going_cases(o: &mut Out, rng: &mut Rng, thorough: bool) {
             })
         };
         let sink0 = Sink::new(0, None, false);
-        o.mark(&format!("keep-going {:?} size={} part={} owned={} no-failure", cfg, size, part, owned));
+        o.mark(&format!("keep-going {:?} size={} part={} owned={} surplus={} no-failure", cfg, size, part, owned, surplus));
         if let Err(m) = history(sink0.clone()) {
             o.violation(viol("writer-panicked", &format!("writer-panicked: {}", m.chars().take(50).collect::<String>()), vec![("config", jstr(&format!("{:?}", cfg))), ("why", jstr(&m)), ("sink_failure", jstr("none"))]));
             continue;
